@@ -251,7 +251,7 @@ type countedMutex struct {
 // lockPileRound: goroutines acquire random subsets of a few mutexes through
 // LockPile, in one or two steps, check mutual exclusion and that exactly the
 // requested set is held, and release everything.
-func lockPileRound(r *ev.Run, rc *reach, i int) {
+func lockPileRound(r *ev.Run, rc *reach, i int) roundVerdict {
 	rng := r.Rand(14, 4, uint64(i))
 	nLocks := 2 + rng.IntN(3)
 	nWorkers := 4 + rng.IntN(12)
@@ -339,7 +339,7 @@ func lockPileRound(r *ev.Run, rc *reach, i int) {
 	r.SituationN("lockpile-backoff", int(backoffs.Load()))
 	r.Count("lockpile_lock_sets_acquired", int(progress.Load()))
 	if v != roundFinished {
-		return
+		return v
 	}
 	if s := broken.Load(); s != nil {
 		r.Violation("C14 lockpile-broken", *s, map[string]any{"seed": r.Seed(), "round": i})
@@ -353,6 +353,7 @@ func lockPileRound(r *ev.Run, rc *reach, i int) {
 		l.Unlock()
 	}
 	r.Hash(ev.HashOf("lockpile", i, nLocks, nWorkers, backoffs.Load() > 0), backoffs.Load() > 0)
+	return v
 }
 
 // ---- scheduler.InMemoryBuildQueue ---------------------------------------------------
